@@ -2,17 +2,22 @@ from props import S
 
 CFG = {
     "properties_file": "Properties/C05.v",
-    "corr_files": ["Corr/C05.v"],
-    "streams": [S("C05", "drive_handles", 400, 20000)],
-    "rule": "allocation histories (Allocate/Release/ReleaseAll) over 1-40 paths, max in {<=0,1,2,3,5,10,11,25}, "
-            "length up to 6x max; a case is non-trivial when it contains an eviction or an id reuse; "
-            "distinct = distinct (max, op list)",
+    "extra_properties_files": ["Properties/C05w.v"],
+    "corr_files": ["Corr/C05.v", "Corr/C05w.v"],
+    "streams": [S("C05", "drive_handles", 300, 20000), S("C05w", "drive_nfs", 100, 5000)],
+    "rule": "C05: allocation histories (Allocate/Release/ReleaseAll) on the real FileHandleMap over 1-40 paths, max in "
+            "{<=0,1,2,3,5,10,11,25}, length up to 6x max; non-trivial = contains an eviction or an id reuse. C05w: request "
+            "histories over a populated tree with handle limit in {0,1,2,3,5,10,11}; every reply that returns a handle (MNT, "
+            "LOOKUP, CREATE, MKDIR, SYMLINK, every READDIRPLUS entry) is followed at once by GETATTR on it; non-trivial = more "
+            "than 3 such follow-ups",
     "assumptions": ["container/heap PopMin returns the minimum (stdlib)", "handle ids stay below 2^64"],
-    "level_text": "Full proof on the model: C05_live, C05_one_per_path, C05_reissue_same, C05_bounded for every reachable state of "
-                  "the handle-table model, every path set and every maximum (induction over arbitrary Allocate/Release/ReleaseAll "
-                  "histories; no bound). The model is tied to filehandle.go by differential runs of the real FileHandleMap evaluated "
-                  "in Coq, which also evaluate the property's own statement on the implementation's tables.",
-    "level_note": "Trusted: Coq kernel; the hand-written model Model/Handles.v (min-heap as multiset with pop-min; map iteration order "
-                  "irrelevant); the Go driver and verif_hooks.go accessors; container/heap. Wire-level issue of handles "
-                  "(MNT/LOOKUP/CREATE/...) is exercised by the NFS session streams, not proved.",
+    "level_text": "Table level, for every reachable table, path set and maximum (induction over arbitrary histories): a handle is "
+                  "live when issued, handles and paths are in bijection so a reissue while live returns the same value, the table "
+                  "never exceeds its limit (C05_live, C05_one_per_path, C05_reissue_same, C05_bounded). Wire level on Model/Srv.v, "
+                  "for every reachable server state: the handle in a MNT/LOOKUP/CREATE/MKDIR/SYMLINK reply resolves in the "
+                  "post-state to the path the request names (C05w_live), the last READDIRPLUS entry's handle is live "
+                  "(C05w_readdirplus_last; earlier entries: kernel-checked counterexample for limit 1 = known finding k=1), same "
+                  "path -> same handle (C05w_same_handle), bounded (C05w_bounded). Both levels are tied to the code by "
+                  "differential runs that also evaluate the statement on the implementation's own tables/replies.",
+    "level_note": "Trusted: Coq kernel; Model/Srv.v + Model/Backend.v + Model/Handles.v as a rendering of the code (validated on every run by the correspondence streams incl. the full-fidelity SRV stream); harness/specfs; the oracle's ghost handle map.",
 }
